@@ -175,6 +175,17 @@ pub fn run(reg: &dyn Registry, ctx: &Ctx) -> Outcome {
             variants.push((format!("{} consecutive stuck measurements in the first collection", k), jitter_env::with_stuck_run(&base, 5, k, jitter_env::Dev::Repeat3), None));
             variants.push((format!("{} consecutive stuck measurements in the second collection", k), jitter_env::with_stuck_run(&base, jitter_env::readings_per_word(rounds) + 5, k, jitter_env::Dev::SameDelta), None));
         }
+        // every kind of single timer deviation (repeats, ties, backward steps, jumps of 2^31 / 2^32, wrap,
+        // a zero reading) at the priming probe, the first probes and in the second collection
+        {
+            let base = jitter_env::raw_readings(ctx.seed ^ 0x17DE, 14 * jitter_env::readings_per_word(3) + 200);
+            let per = jitter_env::readings_per_word(rounds);
+            for &kind in jitter_env::DEV_MENU.iter().chain([jitter_env::Dev::Zero].iter()) {
+                for pos in [2usize, 5, 8, per + 5] {
+                    variants.push((format!("timer deviation {:?} at reading {}", kind, pos), jitter_env::deviate(&base, &[(pos, kind)]), None));
+                }
+            }
+        }
         let vd = jitter_env::benign_readings(ctx.seed ^ 0x17CC, rounds, 14, 64);
         for &target in jitter_env::SPECIAL_WORDS.iter() {
             if let Some(p) = jitter_env::solve_pool_for_first_output(reg, &vd, rounds, target) {
@@ -254,7 +265,7 @@ pub fn run(reg: &dyn Registry, ctx: &Ctx) -> Outcome {
             traces: "seed_pairs_compared",
             evaluations: "states",
             distinct: "states",
-            rule: format!("for XorShiftRng, Hc128Rng/Core, IsaacRng/Core, Isaac64Rng/Core: every history up to depth {} from every start offset x 5 seeds (zero, ones, ramp, two dense); {{:?}} and {{:#?}} must be byte-identical across the seeds and contain no state/output word >= 2^16 (decimal or hex); JitterRng: for every history over outputs/timer_stats/set_rounds the text must be the same for 3 benign timers, 10 timers with runs of 1..1030 stuck measurements, 8 value-directed pools (first collected word zero / zero half / all ones ...) and 6 pool values", depth),
+            rule: format!("for XorShiftRng, Hc128Rng/Core, IsaacRng/Core, Isaac64Rng/Core: every history up to depth {} from every start offset x 5 seeds (zero, ones, ramp, two dense); {{:?}} and {{:#?}} must be byte-identical across the seeds and contain no state/output word >= 2^16 (decimal or hex); JitterRng: for every history over outputs/timer_stats/set_rounds the text must be the same for 3 benign timers, 10 timers with runs of 1..1030 stuck measurements, 68 timers with one deviation (17 kinds x 4 positions), 8 value-directed pools (first collected word zero / zero half / all ones ...) and 6 pool values", depth),
         },
     }
 }
